@@ -34,7 +34,7 @@ fn main() {
     };
     // panics are data for several properties; keep the default hook quiet
     if std::env::var("VERIF_PANIC_VERBOSE").is_err() { std::panic::set_hook(Box::new(|_| {})); }
-    watchdog::start(60);
+    watchdog::start(150);
     match prop {
         "C01" => formula::c01(&mut out, tier, &mut rng, &mut st),
         "C06" => formula::c06(&mut out, tier, &mut rng, &mut st),
